@@ -218,7 +218,11 @@ func genStream(r *kit.Rand, i int, tier string) []string {
 	if n > 0 {
 		first = times[0]
 	}
-	ops := []string{fmt.Sprintf("stream %s %d %s", b01(r.Bool()), genZero(r, first), prec)}
+	file := ""
+	if prec == "n" && r.Chance(1, 3) {
+		file = " file" // through the service's gzip stream recording file
+	}
+	ops := []string{fmt.Sprintf("stream %s %d %s%s", b01(r.Bool()), genZero(r, first), prec, file)}
 	kind := i % 10
 	for j := 0; j < n; j++ {
 		switch {
@@ -306,7 +310,11 @@ func genBatch(r *kit.Rand, i int, tier string) []string {
 		t0 = tmax + int64(r.Intn(5))
 		lines = append(lines, fmt.Sprintf("b %s %s %d %s %s", kit.Esc(kit.Pick(r, cleanNames)), b01(r.Bool()), tmax, btags, list(pts, ";")))
 	}
-	ops := []string{fmt.Sprintf("batch %s %d", b01(r.Bool()), genZero(r, firstT))}
+	file := ""
+	if r.Chance(1, 3) {
+		file = " file" // through the service's zip batch archive
+	}
+	ops := []string{fmt.Sprintf("batch %s %d%s", b01(r.Bool()), genZero(r, firstT), file)}
 	if kind == 2 || kind == 3 { // several sources (one per batch query of the task), replayed concurrently under one clock
 		for i, l := range lines {
 			ops = append(ops, l)
